@@ -33,6 +33,10 @@ rule("C07.k", "an index of one space (variable / mapping row / time step / restr
 rule("C08.f", "a sum of step lengths over the steps of selected mapping rows first reduces the rows to distinct steps (rows are not "
               "steps: two variables per step would count every step twice)", floor=1, props=["C08", "C02"])
 
+rule("C08.n", "coefficients of a restriction row are accumulated per variable over the mapping rows it covers (a variable may have several rows: "
+              "coarser frequency, transport): item by item, or with an accumulating construct (np.add.at, bincount, groupby sum) - `row[idx] += w` "
+              "with an *array* of variable numbers adds every distinct number once (numpy buffers the fancy-index +=): the shares of a coarse "
+              "variable do not add up to one", floor=1, props=["C08", "C13", "C02"])
 rule("C15.n", "the previous solution handed to a fixed window may be longer than the problem (the split set-up passes the rest of x to every "
               "interval, an SLP solution carries the copies of the future variables): it is addressed by variable *label*, or cut to the number of "
               "variables before a boolean mask of that length is applied to it", floor=1)
@@ -380,7 +384,7 @@ def _rule_for(fn) -> str:
     return "C07.k"
 
 
-@analysis("spaces", ["C15.a", "C15.f", "C13.b", "C04.a", "C07.k", "C08.f", "C08.g", "C08.k", "C08.m", "C15.n"])
+@analysis("spaces", ["C15.a", "C15.f", "C13.b", "C04.a", "C07.k", "C08.f", "C08.g", "C08.k", "C08.m", "C15.n", "C08.n"])
 def run(ctx):
     p = ctx.p
     counts = {}
@@ -461,6 +465,38 @@ def run(ctx):
                                "share of the covered duration (max_take 100 over [Jan 6, Jan 16) on a horizon ending Jan 11: 100 instead of 50)"
                                % au.short(grid[0], 40) if grid else "the origin of the denominator was not recognised", node=d,
                                ok_detail="calendar length of the period")
+    # ================================================================= C08.n accumulation per variable over mapping rows
+    n_n8 = 0
+    for fn in sorted(p.all_functions(), key=lambda f: f.qualname):
+        if fn.parent is not None or fn.module.name == "io":
+            continue
+        ty8 = None
+        for st in au.walk_stmts(fn.body):
+            if not (isinstance(st, ast.AugAssign) and isinstance(st.op, (ast.Add, ast.Sub)) and isinstance(st.target, ast.Subscript)):
+                continue
+            sl = st.target.slice
+            idx = sl.elts[-1] if isinstance(sl, ast.Tuple) and sl.elts else sl
+            # an index that is read from a column / the index of a mapping
+            frame_reads = [x for x in au.walk_local(idx) if isinstance(x, ast.Subscript) and isinstance(x.value, ast.Attribute) and x.value.attr in ("loc", "iloc")]
+            cols = [x for x in au.walk_local(idx) if isinstance(x, ast.Subscript) and au.const_str(x.slice) is not None]
+            if not frame_reads and not cols and not any(isinstance(x, ast.Attribute) and x.attr == "index" for x in au.walk_local(idx)):
+                continue
+            ty8 = ty8 or Typer(ctx, fn)
+            bases = [x.value.value for x in frame_reads] + [x.value for x in cols]
+            if not any(ty8.is_mapping(b0, st) for b0 in bases if b0 is not None):
+                continue
+            n_n8 += 1
+            # scalar look-up: .loc[<loop variable over rows>, 'col'] / .at[...]; array: a mask / label list as row selector, .to_numpy(), .values
+            loopvars = {n0 for a in p.ancestors(st) if isinstance(a, ast.For) for n0 in au.target_names(a.target)}
+            scalar = bool(frame_reads) and all(isinstance(x.slice, ast.Tuple) and isinstance(x.slice.elts[0], ast.Name) and x.slice.elts[0].id in loopvars for x in frame_reads)
+            unique = any(isinstance(x, ast.Call) and au.method_name(x) == "unique" for x in au.walk_local(idx))
+            ctx.ob("C08.n", fn, au.short(st, 80), scalar or unique,
+                   "the coefficients are added with one fancy-index `+=` over the array %s: numpy evaluates that as read - add - write, so a variable "
+                   "number that occurs in several selected mapping rows (an asset with a coarser frequency has one row per fine step, each with its "
+                   "share) receives only one of its shares - the take row of a daily contract on an hourly grid carries 1/24 instead of 1, the take "
+                   "limit applies to 1/24 of the volume" % au.short(idx, 50), node=st, ok_detail="item by item" if scalar else "distinct labels")
+    if n_n8 == 0:
+        ctx.ob("C08.n", "package", "accumulation of row coefficients over mapping rows", None, "no `row[<variable number from the mapping>] += share` found")
     # ================================================================= C08.m the take period is the user's
     n_m = 0
     for fn in sorted(p.all_functions(), key=lambda f: f.qualname):
